@@ -184,3 +184,40 @@ CHECKS["C11"] = {
         "the element order of an injected slice is not part of the contract (compared as multisets)",
     ],
 }
+
+CHECKS["C15"] = {
+    "level": "exploration",
+    "jobs": [J("merge", "c15", "TestMerge", 2500, 60000, 8)],
+    "assumptions": [
+        "documents are shape-consistent (a key is a map in every source or a leaf in every source): what Viper does with map-vs-scalar conflicts is third-party behaviour outside the property",
+        "keys are lower-case (Viper lower-cases keys); argument sources carry ints and plain strings only",
+        "two file loaders are both priority-ordered with Order 0: a leaf both supply may take either value",
+    ],
+}
+
+CHECKS["C16"] = {
+    "level": "exploration",
+    "jobs": [
+        J("value", "c16", "TestValue", 3000, 80000, 8),
+        J("prefix", "c16", "TestPrefix", 800, 20000, 4),
+        J("wire", "c16", "TestWire", 600, 10000, 2),
+    ],
+    "assumptions": [
+        "configured values contain only complete placeholders; defaults are drawn from text the container's default normalisation leaves unchanged; empty keys are not generated (Get(\"\") returns the whole document)",
+        "the value carrier's text starts with a letter so that the later literal parsing (C17) cannot interfere",
+        "termination = at most 100 x (reference steps) + 1000 configuration reads, counted by a Binder wrapper",
+    ],
+}
+
+CHECKS["C17"] = {
+    "level": "exploration",
+    "jobs": [
+        J("roundtrip", "c17", "TestRoundTrip", 4000, 150000, 12),
+        J("literal", "c17", "TestLiteral", 2500, 60000, 4),
+    ],
+    "assumptions": [
+        "strings containing the placeholder / expression delimiters ${ and #{ are not generated: configured values containing placeholders are resolved by design (C16)",
+        "an empty string / list / map counts as absent for placeholders: only the prefix twin is compared there",
+        "nil and empty slices / maps are identified (YAML cannot tell them apart); map keys are lower-case",
+    ],
+}
